@@ -22,6 +22,12 @@ fn corpus(tier: Tier) -> Vec<String> {
         "*-->\n\"<q>\" & 'x'\n# Legend:\nz = {stroke:blue}\ny = {fill:none}",
         ".-.\n| |\n'-'  text here",
         "一二三 ─┐\n      │",
+        "\u{feff}+--+\n|  |\n+--+",
+        "\u{0}ab",
+        "\r\n+--+\r\n",
+        "\u{200b}x\u{301}",
+        "  ---+\n     |",
+        "\t*-->",
     ] {
         v.push(d.to_string());
     }
